@@ -15,6 +15,11 @@ NAMES = ['a', 'b', 'c', 'id', 'name', 'x', 'y', 'pth', 'user_1', '_p', 'N']
 RE_POOL = ['to.', '[a-c]+', r'\d{2}', '[^/]+', 'pro.+?(?=l)', '(?:ab)+', 'a|ab', '[0-9a-f]{1,3}', '.+', 'a*']
 
 
+RE_VALUES = {'to.': ['tom', 'tos', 'to/', 'tok'], '[a-c]+': ['abc', 'ab', 'a', 'cab'], r'\d{2}': ['12', '07'], '[^/]+': ['tom', 'a b', 'é', '12'],
+             'pro.+?(?=l)': ['profi', 'pro/x', 'prol'], '(?:ab)+': ['ab', 'abab'], 'a|ab': ['a'], '[0-9a-f]{1,3}': ['ff', '0', 'a1b'], '.+': ['x', 'a/b'], 'a*': ['a', 'aa'],
+             '.+?(?=/end)': ['x', 'a/b']}
+
+
 def merge(ast):
     """Merge adjacent literals, drop empty literals."""
     out = []
